@@ -138,3 +138,31 @@ package cache
 //@   at before "c.store.Store(key, val)": ghost k1 = c.store.keys
 //@   at before "c.store.Store(key, val)": ghost v1 = c.store.val
 //@   at after "c.store.Store(key, val)": apply totalInsert(c.sizeOf, k1, v1, key, val)
+//@
+// Construction. Config is a plain value; the With* methods return a copy with one field replaced; sizeFunc and
+// onEvictFunc supply the defaults (every value has size 1; nothing happens on eviction). New wires them into a cache
+// that satisfies the invariant, given an empty store and a size function that is never negative.
+//@ func (Config).WithStore
+//@   ensures [C08,C09] result.store == s && result.sizeOf == c.sizeOf && result.onEvict == c.onEvict
+//@
+//@ func (Config).WithSize
+//@   ensures [C08,C09] result.sizeOf == sizeOf && result.store == c.store && result.onEvict == c.onEvict
+//@
+//@ func (Config).OnEvict
+//@   ensures [C08,C09] result.onEvict == f && result.store == c.store && result.sizeOf == c.sizeOf
+//@
+//@ func (Config).sizeFunc
+//@   ensures [C08,C09] given: c.sizeOf != nil ==> result == c.sizeOf
+//@   ensures [C08,C09] unit: c.sizeOf == nil ==> result != nil && forall v V :: {apply1(result, v)} apply1(result, v) == 1
+//@
+//@ func (Config).onEvictFunc
+//@   ensures [C08,C09] given: c.onEvict != nil ==> result == c.onEvict
+//@   ensures [C08,C09] default: result != nil
+//@
+//@ func New
+//@   panics when limit <= 0 || config.store == nil
+//@   requires [C08,C09] empty: config.store != nil ==> config.store.keys == emptyset(config.store.keys)
+//@   requires [C08,C09] sizes: config.sizeOf != nil ==> forall v V :: {apply1(config.sizeOf, v)} apply1(config.sizeOf, v) >= 0
+//@   ensures  [C08,C09] wired: result != nil && fresh(result) && result.store == config.store && result.limit == limit && (config.sizeOf != nil ==> result.sizeOf == config.sizeOf) && (config.onEvict != nil ==> result.onEvict == config.onEvict)
+//@   ensures  [C08,C09] inv: cacheInv(result) && result.size == 0 && result.count == 0
+//@   at exit: apply [C08,C09] totalEmpty(result.sizeOf, result.store.keys, result.store.val)
